@@ -51,66 +51,47 @@ theorem map_eq_flatMap {α β} (h : α → β) : ∀ l : List α, l.map h = l.fl
 
 /-! ### within one definition -/
 
-theorem tySlots_fieldEvs_mem {sname : Bytes} {l : List Field} {k : Nat} {s : Slot}
-    (h : s ∈ tySlots (fieldEvs sname k l)) : ∃ j, s = .field sname j ∧ k ≤ j := by
+theorem tySlots_fieldEvs_mem {mk : Nat → Slot} {l : List Field} {k : Nat} {s : Slot}
+    (h : s ∈ tySlots (fieldEvs mk k l)) : ∃ j, s = mk j ∧ k ≤ j := by
   obtain ⟨te, hm⟩ := mem_tySlots.mp h
-  obtain ⟨j, fl, _, h2, _⟩ := (mem_fieldEvs_ty sname l k s te).mp hm
+  obtain ⟨j, fl, _, h2, _⟩ := (mem_fieldEvs_ty mk l k s te).mp hm
   exact ⟨k + j, h2, Nat.le_add_right ..⟩
 
-theorem cvSlots_fieldEvs_mem {sname : Bytes} {l : List Field} {k : Nat} {s : Slot}
-    (h : s ∈ cvSlots (fieldEvs sname k l)) : ∃ j, s = .field sname j ∧ k ≤ j := by
+theorem cvSlots_fieldEvs_mem {mk : Nat → Slot} {l : List Field} {k : Nat} {s : Slot}
+    (h : s ∈ cvSlots (fieldEvs mk k l)) : ∃ j, s = mk j ∧ k ≤ j := by
   obtain ⟨te, hm⟩ := mem_cvSlots.mp h
-  obtain ⟨j, fl, _, h2, _⟩ := (mem_fieldEvs_cv sname l k s te).mp hm
+  obtain ⟨j, fl, _, h2, _⟩ := (mem_fieldEvs_cv mk l k s te).mp hm
   exact ⟨k + j, h2, Nat.le_add_right ..⟩
 
-theorem tySlots_fieldEvs_nodup (sname : Bytes) : ∀ (l : List Field) (k : Nat),
-    (tySlots (fieldEvs sname k l)).Nodup
+theorem tySlots_fieldEvs_nodup (mk : Nat → Slot) (inj : ∀ a b, mk a = mk b → a = b) :
+    ∀ (l : List Field) (k : Nat), (tySlots (fieldEvs mk k l)).Nodup
   | [], k => by simp [fieldEvs, tySlots]
   | fl :: r, k => by
-    have ih := tySlots_fieldEvs_nodup sname r (k + 1)
-    have hnot : Slot.field sname k ∉ tySlots (fieldEvs sname (k + 1) r) := by
+    have ih := tySlots_fieldEvs_nodup mk inj r (k + 1)
+    have hnot : mk k ∉ tySlots (fieldEvs mk (k + 1) r) := by
       intro hm
       obtain ⟨j, h1, h2⟩ := tySlots_fieldEvs_mem hm
-      simp only [Slot.field.injEq, true_and] at h1
+      have := inj _ _ h1
       omega
     cases hd : fl.dflt <;>
       simp only [fieldEvs, hd, List.cons_append, List.nil_append, tySlots, List.nodup_cons] <;>
       exact ⟨hnot, ih⟩
 
-theorem cvSlots_fieldEvs_nodup (sname : Bytes) : ∀ (l : List Field) (k : Nat),
-    (cvSlots (fieldEvs sname k l)).Nodup
+theorem cvSlots_fieldEvs_nodup (mk : Nat → Slot) (inj : ∀ a b, mk a = mk b → a = b) :
+    ∀ (l : List Field) (k : Nat), (cvSlots (fieldEvs mk k l)).Nodup
   | [], k => by simp [fieldEvs, cvSlots]
   | fl :: r, k => by
-    have ih := cvSlots_fieldEvs_nodup sname r (k + 1)
-    have hnot : Slot.field sname k ∉ cvSlots (fieldEvs sname (k + 1) r) := by
+    have ih := cvSlots_fieldEvs_nodup mk inj r (k + 1)
+    have hnot : mk k ∉ cvSlots (fieldEvs mk (k + 1) r) := by
       intro hm
       obtain ⟨j, h1, h2⟩ := cvSlots_fieldEvs_mem hm
-      simp only [Slot.field.injEq, true_and] at h1
+      have := inj _ _ h1
       omega
     cases hd : fl.dflt
     · simp only [fieldEvs, hd, List.cons_append, List.nil_append, cvSlots]
       exact ih
     · simp only [fieldEvs, hd, List.cons_append, List.nil_append, cvSlots, List.nodup_cons]
       exact ⟨hnot, ih⟩
-
-theorem tySlots_argEvs (mk : Nat → Slot) : ∀ (l : List Field) (k : Nat) (s : Slot),
-    s ∈ tySlots (argEvs mk k l) → ∃ j, s = mk j ∧ k ≤ j := by
-  intro l k s h
-  obtain ⟨te, hm⟩ := mem_tySlots.mp h
-  obtain ⟨j, fl, _, h2⟩ := (mem_argEvs mk l k _).mp hm
-  simp only [Ev.ty.injEq] at h2
-  exact ⟨k + j, h2.1, Nat.le_add_right ..⟩
-
-theorem tySlots_argEvs_nodup (mk : Nat → Slot) (inj : ∀ a b, mk a = mk b → a = b) :
-    ∀ (l : List Field) (k : Nat), (tySlots (argEvs mk k l)).Nodup
-  | [], k => by simp [argEvs, tySlots]
-  | fl :: r, k => by
-    simp only [argEvs, tySlots, List.nodup_cons]
-    refine ⟨?_, tySlots_argEvs_nodup mk inj r (k + 1)⟩
-    intro hm
-    obtain ⟨j, h1, h2⟩ := tySlots_argEvs mk r (k + 1) _ hm
-    have := inj _ _ h1
-    omega
 
 /-- the function index of a function-member slot -/
 def Slot.fnIdx : Slot → Option Nat
@@ -119,22 +100,37 @@ def Slot.fnIdx : Slot → Option Nat
   | .throw _ k _ => some k
   | _ => none
 
+theorem argInj (svc : Bytes) (k : Nat) : ∀ a b, Slot.arg svc k a = Slot.arg svc k b → a = b := by
+  intro a b h; simpa using h
+
+theorem throwInj (svc : Bytes) (k : Nat) : ∀ a b, Slot.throw svc k a = Slot.throw svc k b → a = b := by
+  intro a b h; simpa using h
+
+theorem fieldInj (sname : Bytes) : ∀ a b, Slot.field sname a = Slot.field sname b → a = b := by
+  intro a b h; simpa using h
+
 theorem tySlots_fnEv_mem {svc : Bytes} {k : Nat} {fn : Function} {s : Slot}
     (h : s ∈ tySlots (fnEv svc k fn)) : s.fnIdx = some k ∧ s.owner = (3, svc) := by
   obtain ⟨te, hm⟩ := mem_tySlots.mp h
-  rcases (mem_fnEv svc k fn _).mp hm with ⟨t, _, h4⟩ | ⟨a, fl, _, h4⟩ | ⟨a, fl, _, h4⟩ <;>
-    simp only [Ev.ty.injEq] at h4 <;> rw [h4.1] <;> exact ⟨rfl, rfl⟩
+  rcases (mem_fnEv_ty svc k fn _ _).mp hm with ⟨_, h4⟩ | ⟨a, fl, _, h4, _⟩ | ⟨a, fl, _, h4, _⟩ <;>
+    rw [h4] <;> exact ⟨rfl, rfl⟩
+
+theorem cvSlots_fnEv_mem {svc : Bytes} {k : Nat} {fn : Function} {s : Slot}
+    (h : s ∈ cvSlots (fnEv svc k fn)) : s.fnIdx = some k ∧ s.owner = (3, svc) := by
+  obtain ⟨te, hm⟩ := mem_cvSlots.mp h
+  rcases (mem_fnEv_cv svc k fn _ _).mp hm with ⟨a, fl, _, h4, _⟩ | ⟨a, fl, _, h4, _⟩ <;>
+    rw [h4] <;> exact ⟨rfl, rfl⟩
 
 theorem tySlots_fnEv_nodup (svc : Bytes) (k : Nat) (fn : Function) : (tySlots (fnEv svc k fn)).Nodup := by
   unfold fnEv
   rw [tySlots_append, tySlots_append]
-  have ha := tySlots_argEvs_nodup (fun a => Slot.arg svc k a) (fun a b h => by simpa using h) fn.args 0
-  have ht := tySlots_argEvs_nodup (fun a => Slot.throw svc k a) (fun a b h => by simpa using h) fn.throws 0
+  have ha := tySlots_fieldEvs_nodup (fun a => Slot.arg svc k a) (argInj svc k) fn.args 0
+  have ht := tySlots_fieldEvs_nodup (fun a => Slot.throw svc k a) (throwInj svc k) fn.throws 0
   refine List.nodup_append.mpr ⟨?_, List.nodup_append.mpr ⟨ha, ht, ?_⟩, ?_⟩
   · cases fn.ret <;> simp [tySlots]
   · intro a h1 b h2 hab
-    obtain ⟨j, e1, _⟩ := tySlots_argEvs _ _ _ _ h1
-    obtain ⟨j', e2, _⟩ := tySlots_argEvs _ _ _ _ h2
+    obtain ⟨j, e1, _⟩ := tySlots_fieldEvs_mem h1
+    obtain ⟨j', e2, _⟩ := tySlots_fieldEvs_mem h2
     rw [e1, e2] at hab
     simp at hab
   · intro a h1 b h2 hab
@@ -143,16 +139,38 @@ theorem tySlots_fnEv_nodup (svc : Bytes) (k : Nat) (fn : Function) : (tySlots (f
       | none => rw [hr] at h1; simp [tySlots] at h1
       | some t => rw [hr] at h1; simpa [tySlots] using h1
     rcases List.mem_append.mp h2 with h2 | h2
-    · obtain ⟨j', e2, _⟩ := tySlots_argEvs _ _ _ _ h2
+    · obtain ⟨j', e2, _⟩ := tySlots_fieldEvs_mem h2
       rw [ea, e2] at hab; simp at hab
-    · obtain ⟨j', e2, _⟩ := tySlots_argEvs _ _ _ _ h2
+    · obtain ⟨j', e2, _⟩ := tySlots_fieldEvs_mem h2
       rw [ea, e2] at hab; simp at hab
+
+theorem cvSlots_fnEv_nodup (svc : Bytes) (k : Nat) (fn : Function) : (cvSlots (fnEv svc k fn)).Nodup := by
+  unfold fnEv
+  rw [cvSlots_append, cvSlots_append]
+  have ha := cvSlots_fieldEvs_nodup (fun a => Slot.arg svc k a) (argInj svc k) fn.args 0
+  have ht := cvSlots_fieldEvs_nodup (fun a => Slot.throw svc k a) (throwInj svc k) fn.throws 0
+  refine List.nodup_append.mpr ⟨?_, List.nodup_append.mpr ⟨ha, ht, ?_⟩, ?_⟩
+  · cases fn.ret <;> simp [cvSlots]
+  · intro a h1 b h2 hab
+    obtain ⟨j, e1, _⟩ := cvSlots_fieldEvs_mem h1
+    obtain ⟨j', e2, _⟩ := cvSlots_fieldEvs_mem h2
+    rw [e1, e2] at hab
+    simp at hab
+  · intro a h1
+    cases hr : fn.ret <;> rw [hr] at h1 <;> simp [cvSlots] at h1
 
 theorem tySlots_fnEvs_mem {svc : Bytes} {l : List Function} {k : Nat} {s : Slot}
     (h : s ∈ tySlots (fnEvs svc k l)) : (∃ j, s.fnIdx = some j ∧ k ≤ j) ∧ s.owner = (3, svc) := by
   obtain ⟨te, hm⟩ := mem_tySlots.mp h
   obtain ⟨j, fn, _, h2⟩ := (mem_fnEvs svc l k _).mp hm
   have := tySlots_fnEv_mem (mem_tySlots.mpr ⟨te, h2⟩)
+  exact ⟨⟨k + j, this.1, Nat.le_add_right ..⟩, this.2⟩
+
+theorem cvSlots_fnEvs_mem {svc : Bytes} {l : List Function} {k : Nat} {s : Slot}
+    (h : s ∈ cvSlots (fnEvs svc k l)) : (∃ j, s.fnIdx = some j ∧ k ≤ j) ∧ s.owner = (3, svc) := by
+  obtain ⟨te, hm⟩ := mem_cvSlots.mp h
+  obtain ⟨j, fn, _, h2⟩ := (mem_fnEvs svc l k _).mp hm
+  have := cvSlots_fnEv_mem (mem_cvSlots.mpr ⟨te, h2⟩)
   exact ⟨⟨k + j, this.1, Nat.le_add_right ..⟩, this.2⟩
 
 theorem tySlots_fnEvs_nodup (svc : Bytes) : ∀ (l : List Function) (k : Nat), (tySlots (fnEvs svc k l)).Nodup
@@ -168,14 +186,23 @@ theorem tySlots_fnEvs_nodup (svc : Bytes) : ∀ (l : List Function) (k : Nat), (
     simp only [Option.some.injEq] at e2
     omega
 
-theorem cvSlots_svcEvs (s : Service) : cvSlots (svcEvs s) = [] := by
-  apply List.eq_nil_iff_forall_not_mem.mpr
-  intro x hx
-  obtain ⟨v, hm⟩ := mem_cvSlots.mp hx
-  unfold svcEvs at hm
-  rcases List.mem_append.mp hm with hm | hm
-  · exact not_cv_fnEvs _ _ _ _ _ hm
-  · simp at hm
+theorem cvSlots_fnEvs_nodup (svc : Bytes) : ∀ (l : List Function) (k : Nat), (cvSlots (fnEvs svc k l)).Nodup
+  | [], k => by simp [fnEvs, cvSlots]
+  | fn :: r, k => by
+    simp only [fnEvs, cvSlots_append]
+    refine List.nodup_append.mpr ⟨cvSlots_fnEv_nodup svc k fn, cvSlots_fnEvs_nodup svc r (k + 1), ?_⟩
+    intro a h1 b h2 hab
+    subst hab
+    have e1 := (cvSlots_fnEv_mem h1).1
+    obtain ⟨⟨j, e2, hj⟩, _⟩ := cvSlots_fnEvs_mem h2
+    rw [e1] at e2
+    simp only [Option.some.injEq] at e2
+    omega
+
+theorem cvSlots_svcEvs (s : Service) : cvSlots (svcEvs s) = cvSlots (fnEvs s.name 0 s.functions) := by
+  unfold svcEvs
+  rw [cvSlots_append]
+  simp [cvSlots]
 
 theorem tySlots_svcEvs (s : Service) : tySlots (svcEvs s) = tySlots (fnEvs s.name 0 s.functions) := by
   unfold svcEvs
@@ -195,8 +222,8 @@ theorem events_ty_nodup (f : File) (h : f.names.Nodup) : (tySlots f.events).Nodu
     (fun c => [Ev.ty (.const c.name) c.type, Ev.cv (.const c.name) c.value]) 1 f.constants n2
     (fun x _ => by simp [tyX, tySlots]) (fun x _ s hs => by simp [tyX, tySlots] at hs; rw [hs]; rfl)
   obtain ⟨c1, c2⟩ := nodup_flatMap_owner tyX (fun (s : StructLike) => s.name)
-    (fun s => fieldEvs s.name 0 s.fields) 2 f.structLikes n4
-    (fun x _ => tySlots_fieldEvs_nodup x.name x.fields 0)
+    (fun s => fieldEvs (fun k => .field s.name k) 0 s.fields) 2 f.structLikes n4
+    (fun x _ => tySlots_fieldEvs_nodup _ (fieldInj x.name) x.fields 0)
     (fun x _ s hs => by obtain ⟨j, e, _⟩ := tySlots_fieldEvs_mem hs; rw [e]; rfl)
   obtain ⟨d1, d2⟩ := nodup_flatMap_owner tyX (fun (s : Service) => s.name) svcEvs 3 f.services n5
     (fun x _ => by show (tySlots (svcEvs x)).Nodup; rw [tySlots_svcEvs]; exact tySlots_fnEvs_nodup x.name x.functions 0)
@@ -236,15 +263,15 @@ theorem events_cv_nodup (f : File) (h : f.names.Nodup) : (cvSlots f.events).Nodu
     (fun c => [Ev.ty (.const c.name) c.type, Ev.cv (.const c.name) c.value]) 1 f.constants n2
     (fun x _ => by simp [cvX, cvSlots]) (fun x _ s hs => by simp [cvX, cvSlots] at hs; rw [hs]; rfl)
   obtain ⟨c1, c2⟩ := nodup_flatMap_owner cvX (fun (s : StructLike) => s.name)
-    (fun s => fieldEvs s.name 0 s.fields) 2 f.structLikes n4
-    (fun x _ => cvSlots_fieldEvs_nodup x.name x.fields 0)
+    (fun s => fieldEvs (fun k => .field s.name k) 0 s.fields) 2 f.structLikes n4
+    (fun x _ => cvSlots_fieldEvs_nodup _ (fieldInj x.name) x.fields 0)
     (fun x _ s hs => by obtain ⟨j, e, _⟩ := cvSlots_fieldEvs_mem hs; rw [e]; rfl)
   obtain ⟨d1, d2⟩ := nodup_flatMap_owner cvX (fun (s : Service) => s.name) svcEvs 3 f.services n5
-    (fun x _ => by show (cvSlots (svcEvs x)).Nodup; rw [cvSlots_svcEvs]; exact List.nodup_nil)
+    (fun x _ => by show (cvSlots (svcEvs x)).Nodup; rw [cvSlots_svcEvs]; exact cvSlots_fnEvs_nodup x.name x.functions 0)
     (fun x _ s hs => by
       have hs' : s ∈ cvSlots (svcEvs x) := hs
       rw [cvSlots_svcEvs] at hs'
-      simp at hs')
+      exact (cvSlots_fnEvs_mem hs').2)
   simp only [cvX] at a1 a2 b1 b2 c1 c2 d1 d2
   simp only [cvSlots_append]
   have tagne : ∀ {s : Slot} {α β} {l : List α} {l' : List β} {nm : α → Bytes} {nm' : β → Bytes} {t t' : Nat},
